@@ -12,7 +12,7 @@ EXPLANATION = (
     "4-tuple (owner, created, linger-start, iterator) whose linger-start is 0 exactly when an owner is attached and a clock "
     "value exactly when the owner is None; disconnect handling touches only entries whose owner *is* the ended connection; "
     "every housekeeping delete is guarded by a comparison of a measured period with the configured lifetime / linger (directly or "
-    "through a flag), both expiries exist, the lifetime test does not depend on the linger state, all under the housekeeper lock; the client iterator drops its proxy on exhaustion and sends close_stream only while connected. "
+    "through a flag), both expiries exist, the lifetime test does not depend on the linger state, all under the housekeeper lock, and every server loop drives housekeeping; the client iterator drops its proxy on exhaustion and sends close_stream only while connected. "
     "Not decided (most of the property): item order, no loss/duplication, interleavings of next/close/reconnect/housekeeping, "
     "virtual time."
 )
